@@ -16,8 +16,22 @@ VERIF = os.path.dirname(os.path.dirname(os.path.abspath(__file__)))
 
 
 class _OldRewriter(ast.NodeTransformer):
+    """old(e) -> pre-evaluated name; a == b between computed numbers -> eq(a, b): clauses are exact
+    identities over the reals (A-REAL), natively they are checked to within rt.REPLAY_REL_TOL"""
+
     def __init__(self):
         self.olds = []
+
+    def visit_Compare(self, node):
+        node = self.generic_visit(node)
+        if len(node.ops) == 1 and isinstance(node.ops[0], (ast.Eq, ast.NotEq)):
+            a, b = node.left, node.comparators[0]
+            if not any(isinstance(x, ast.Constant) and isinstance(x.value, (str, type(None))) for x in (a, b)):
+                call = ast.Call(func=ast.Name(id='eq', ctx=ast.Load()), args=[a, b], keywords=[])
+                if isinstance(node.ops[0], ast.NotEq):
+                    return ast.UnaryOp(op=ast.Not(), operand=call)
+                return call
+        return node
 
     def visit_Call(self, node):
         if isinstance(node.func, ast.Name) and node.func.id == 'old' and len(node.args) == 1:
